@@ -2,6 +2,7 @@ package cycle
 
 import (
 	"fmt"
+	"strings"
 
 	"github.com/NVIDIA/KAI-scheduler/pkg/scheduler/api/pod_status"
 
@@ -52,21 +53,31 @@ func Gen(r *u.Rng) Cluster {
 			proto.Cpu, proto.Mem = 0, 0 // best effort
 		default:
 		}
-		// two pod sets sometimes
-		if np >= 2 && r.Chance(1, 4) {
+		// two pod sets sometimes: flat, or each under its own grouping sub-group set (hierarchical gang)
+		protoB := proto
+		if np >= 2 && r.Chance(1, 3) {
 			j.SubGroups = []SubGroup{{Name: "a", MinMember: 1}, {Name: "b", MinMember: int32(r.Range(1, np-1))}}
+			if r.Bool() {
+				j.SubGroups = []SubGroup{{Name: "ga"}, {Name: "gb"}, {Name: "a", MinMember: 1, Parent: "ga"},
+					{Name: "b", MinMember: int32(np - 1), Parent: "gb"}}
+				// the pods of the second pod set are bigger, so that one replica can fit where the other cannot
+				if protoB.Gpus > 0 {
+					protoB.Gpus = 2
+				}
+			}
 		}
 		mode := r.Intn(5) // 0,1 pending; 2 running; 3 mixed; 4 running with a terminating pod
 		for k := 0; k < np; k++ {
 			p := proto
-			p.Name = fmt.Sprintf("%s-%d", j.Name, k)
 			if len(j.SubGroups) > 0 {
 				if k == 0 {
 					p.SubGroup = "a"
 				} else {
+					p = protoB
 					p.SubGroup = "b"
 				}
 			}
+			p.Name = fmt.Sprintf("%s-%d", j.Name, k)
 			p.Status = pod_status.Pending
 			wantRun := mode == 2 || mode == 4 || (mode == 3 && int32(k) < j.MinMember)
 			if wantRun {
@@ -171,6 +182,12 @@ func Run(dir, prop string, seed uint64, n int) error {
 	if prop == "C03" {
 		caseType, wrap = "c03case", "(GCycle %s)"
 	}
+	if prop == "C02" {
+		caseType, wrap = "c02case", "(PCycle %s)"
+	}
+	if prop == "C01" {
+		caseType, wrap = "c01case", "(FCycle %s)"
+	}
 	out := u.NewOut(dir, prop, "KaiV.Run."+prop, caseType, 40)
 	out.Flags = true
 	root := u.NewRng(seed)
@@ -181,6 +198,39 @@ func Run(dir, prop string, seed uint64, n int) error {
 			out.Add(term, label)
 			out.Count("gang-cases")
 			out.NonTrivial(label)
+		}
+	}
+	if prop == "C02" {
+		// function-level correspondence for the choice of GPU groups (GetNodePreferableGpuForSharing)
+		for i := 0; i < 3*n; i++ {
+			term, label := DecisionCase(root.Fork(uint64(2000000 + i)))
+			out.Add(term, label)
+			out.Count("decision-cases")
+			out.NonTrivial(label)
+		}
+	}
+	if prop == "C01" {
+		// cycles with failing Bind / Evict API calls: the books are not compared (a failed commit leaves
+		// un-emitted operations applied for the rest of the cycle), the decisions still have to be safe
+		for i := 0; i < n; i++ {
+			r := root.Fork(uint64(3000000 + i))
+			c := Gen(r)
+			for k := 0; k < 8; k++ {
+				if r.Chance(1, 3) {
+					c.FailBinds = append(c.FailBinds, k)
+				}
+				if r.Chance(1, 5) {
+					c.FailEvicts = append(c.FailEvicts, k)
+				}
+			}
+			term, label, st := Emit(c)
+			out.Add(fmt.Sprintf("(FFault %s)", term), "faults "+label)
+			out.Count("fault-cycles")
+			if strings.Contains(label, "FAILED") {
+				out.Count("fault-cycles-with-a-failed-call")
+				out.NonTrivial(label)
+			}
+			_ = st
 		}
 	}
 	for i := 0; i < n; i++ {
